@@ -65,7 +65,10 @@ def _inverse(case):
     with dwtu.default_dtype(dwtu.tdt(case['dtype'])):
         sib = dwtu.sibling(case['wave']) if (case.get('reused') and not case.get('wave_row')) else None
         if sib is None:
-            return cls(wave=c01.wave_arg(case, 'rec'), mode=msp)
+            wa = c01.wave_arg(case, 'rec')
+            m = cls(wave=wa, mode=msp)
+            c01.scribble(wa)
+            return m
 
         def warm(m):
             k_ = 2 * dwtu.flen(case['wave']) + 2
